@@ -472,7 +472,9 @@ impl Target {
 
     pub(crate) fn is_grayscale_cleartype(&self) -> bool {
         match self {
-            Self::Smooth { mode, .. } => matches!(mode, SmoothMode::Normal | SmoothMode::Light),
+            // FreeType tests `load_flags & FT_LOAD_TARGET_LCD`, which is also set for
+            // FT_LOAD_TARGET_LIGHT, so light mode does not report grayscale ClearType.
+            Self::Smooth { mode, .. } => matches!(mode, SmoothMode::Normal),
             _ => false,
         }
     }
